@@ -67,8 +67,10 @@ func runC03(c *Ctx) {
 		detail := ""
 
 		for _, in := range Find(fWatch, StoreToField("Event", "Resource")) {
+			// (every state.Event built in Watch itself is the initial event, whether it is filled in place
+			// or returned as a literal by a helper; stream events are read in the delivery goroutine)
 			st := in.(*ssa.Store)
-			if !Glob("var:pkg/state.Event.Resource", p.Desc(st.Addr)) {
+			if !Glob("var:*.Resource", p.Desc(st.Addr)) {
 				continue
 			}
 
@@ -86,7 +88,7 @@ func runC03(c *Ctx) {
 			}
 		}
 
-		c.Check(ok && n == 2, "R03.2", FuncName(fWatch)+" :: initialEvent.Resource ∈ {DeepCopy(storage[id]), tombstone}, set under the lock", fpos(fWatch), "2 stores", fmt.Sprintf("%d stores; %s", n, detail))
+		c.Check(ok && n >= 2, "R03.2", FuncName(fWatch)+" :: initialEvent.Resource ∈ {DeepCopy(storage[id]), tombstone}, set under the lock", fpos(fWatch), "2 stores", fmt.Sprintf("%d stores; %s", n, detail))
 
 		// the tombstone branch is taken only when the id is absent; the copy branch only when present
 		c.MustCut("R03.2", "tombstone ⊣ {storage[id] == nil}", fWatch, p.CallTo("pkg/resource.NewTombstone"), CutSpec{Edges: FactEdge("nil(lookup(*param#0.storage,param#2))")}, 1)
